@@ -13,7 +13,10 @@
    summaries exported by the implementation.
    Also proved: reuse_summary (the re-instantiation of a summary through the internal names) is
    sound for arbitrary name sharing.
-   C10_model_statement (the model's result is always accepted) is corresponded, not proved.
+   The model's own result is proved sound directly in Props/Properties_C10_model.v
+   (C10_model_sound: summaries hold for every input, tables contain every reachable state, for
+   non-recursive call graphs - on recursive ones the model raises its error flag).
+   C10_model_statement (the model's result is always accepted by the checker) stays corresponded.
    Summary domain different from the invariant domain (zones / intervals): not modelled, covered
    by the concrete oracle only. *)
 From Coq Require Import ZArith NArith List Bool Arith.
